@@ -96,8 +96,9 @@ theorem C01_partial_run (hE : EnvOK env G) (ops : List (Op L)) :
 /-- a fresh editor (empty buffer, any dictionary that is well formed, any layout, coupled options) satisfies the invariant -/
 theorem initial_inv (sh : Shared D L) (hg : G sh.dict) (hcom : sh.com = {})
     (hcp : sh.options.lookupStrategy = .fuzzyPartialPrefix → engStrategy sh.engine = .fuzzyPartialPrefix)
-    (hpp : 0 < sh.options.candidatesPerPage) : EditorInv env G { shared := sh, state := .entering } := by
-  refine ⟨⟨hg, hcom ▸ cedInv_new, ?_, hcp, hpp⟩, trivial⟩
+    (hpp : 0 < sh.options.candidatesPerPage) (hsym : SymWF sh.symSel) :
+    EditorInv env G { shared := sh, state := .entering } := by
+  refine ⟨⟨hg, hcom ▸ cedInv_new, ?_, hcp, hpp, hsym⟩, trivial⟩
   intro c hc
   rw [hcom] at hc
   cases hc
@@ -228,6 +229,9 @@ theorem toyEnv_ok : EnvOK toyEnv (fun _ => True) where
     simpa using this
   estimate_ok := fun _ f _ => ⟨f, rfl⟩
 
+theorem symWF_empty : SymWF {} :=
+  ⟨fun c h => (by cases h), fun n h => (by cases h), fun n i h => (by cases h)⟩
+
 /-- a fresh editor over the dictionary `d` with the fuzzy engine and prefix lookup (what
     `chewing.conversion_engine = 2` configures) -/
 def fuzzyEditor (d : List Nat) : Editor (List Nat) Nat :=
@@ -238,10 +242,10 @@ def fuzzyEditor (d : List Nat) : Editor (List Nat) Nat :=
 def stdEditor (d : List Nat) : Editor (List Nat) Nat := { shared := { syl := 0, dict := d } }
 
 theorem fuzzyEditor_inv (d : List Nat) : EditorInv toyEnv (fun _ => True) (fuzzyEditor d) :=
-  initial_inv _ trivial rfl (fun _ => rfl) (by show (0 : Nat) < 10; omega)
+  initial_inv _ trivial rfl (fun _ => rfl) (by show (0 : Nat) < 10; omega) symWF_empty
 
 theorem stdEditor_inv (d : List Nat) : EditorInv toyEnv (fun _ => True) (stdEditor d) :=
-  initial_inv _ trivial rfl (fun h => by cases h) (by show (0 : Nat) < 10; omega)
+  initial_inv _ trivial rfl (fun h => by cases h) (by show (0 : Nat) < 10; omega) symWF_empty
 
 def keyH : KeyEvent := { index := 32, code := 32, unicode := 104 }
 def keyJ : KeyEvent := { index := 33, code := 33, unicode := 106 }
